@@ -19,7 +19,8 @@ import DclabModel.Lemmas.BasinDefs
                          `basinmapK` feature with different content, for every history of calls;
 * `F08_old_export_wrong` the code before the fix violated `export_composes` (witness).
 * session 4: `stream_history_sound`, `append_holds_written` (map features written chunk-wise),
-  `export_defs_read_back`, `shared_name_equal_maps` (definition records of an export),
+  `export_defs_read_back`, `export_defs_read_back_from`, `shared_name_equal_maps` (definition
+  records of an export; `_from`: map features already written by the feature loop),
   `first_offering_basin_wins`, `lookup_deterministic` (priority among basins),
   `invalid_map_rejected`, `nd_route_rejects_iff`, `int_route_rejects_iff` (out-of-range maps),
   `copy_selected_same`, `copy_unselected_via_file_basins`, `copy_never_other_data` (`rtdc_copy`
@@ -314,6 +315,30 @@ theorem export_defs_read_back (out : RFile) (s : SFile) (h : exportStore out = s
 example : (exportStore ⟨[], [⟨.file 0, none, some [1, 3]⟩, ⟨.file 1, none, some [0, 1]⟩,
       ⟨.file 2, none, some [1, 3]⟩, ⟨.file 3, none, none⟩]⟩).map (fun s => s.defs.map (·.mapping))
     = some [some 0, some 1, some 0, none] := by decide
+
+/-- The same for an export whose feature list names `basinmapN` features of the exported dataset
+(the default list of a referrer does; depth ≥ 2 of an export chain): the feature loop has written
+the map features `pre` before the `store_basin` calls.  For *every* `pre` the i-th record reads
+back the i-th composed map, shared names mean equal maps, and no written map feature is changed
+(in particular it keeps its length: nothing is appended to it). -/
+theorem export_defs_read_back_from (pre : Maps) (out : RFile) (s : SFile)
+    (h : exportStoreFrom pre out = some s) :
+    Sound s ∧ s.defs.map (·.intended) = out.basins.map (·.map) ∧
+    (∀ d1 ∈ s.defs, ∀ d2 ∈ s.defs, d1.mapping = d2.mapping → d1.intended = d2.intended) ∧
+    (∀ j c, lk j pre = some c → lk j s.maps = some c) := by
+  have hs : Sound s := store_from_empty pre _ s h
+  have h0 : Sound (⟨pre, []⟩ : SFile) := fun d hd => by cases hd
+  refine ⟨hs, ?_, fun d1 h1 d2 h2 hm => shared_name_equal_maps hs h1 h2 hm,
+    storeAll_maps_kept _ h0 h⟩
+  have := storeAll_intended (defReqsFrom 0 out.basins) (s := ⟨pre, []⟩) h0 h
+  simpa [defReqsFrom_content] using this
+
+/-- the upstream map exported under its old name is reused, the self reference gets the next
+free name; a written feature with other content is skipped -/
+example : (exportStoreFrom [(0, [4, 6]), (1, [9, 9])] ⟨[], [⟨.file 0, none, some [4, 6]⟩,
+      ⟨.file 1, none, some [0, 2]⟩, ⟨.file 2, none, none⟩]⟩).map
+      (fun s => (s.defs.map (·.mapping), s.maps))
+    = some ([some 0, some 2, none], [(0, [4, 6]), (1, [9, 9]), (2, [0, 2])]) := by decide
 
 /-- Priority among basins: for a feature that is not stored in the file, the value is the one
 delivered by the *first* basin (in the order of `ds.basins`) whose route succeeds — every earlier
